@@ -564,6 +564,14 @@ def _offsets(ctx, prog, wt, rd):
             plain_paths += 1
         else:
             bad_paths.append('%s on the %s edge' % ('to_radians' if converts else 'no conversion', {(): 'unconditional', (1,): 'deg(..)', (0,): 'plain-number', ('otherwise',): 'plain-number'}.get(tuple(on_deg), str(on_deg))))
+    if not (conv_paths >= 1 and plain_paths >= 1 and not bad_paths):
+        # not written as one conversion per edge of the prefix test (a flag carried to a shared parse, say): decided by
+        # interpreting the reader with the string operations scripted
+        by_run = _parse_degrees_by_interpretation(prog, pd)
+        if by_run is not None and not by_run:
+            conv_paths, plain_paths, bad_paths = 1, 1, []
+        elif by_run:
+            bad_paths = by_run
     ctx.check(conv_paths >= 1 and plain_paths >= 1 and not bad_paths, 'R19.2', 'offsets/plain-radians', pd.where(0), pd.path,
               'deg(x) must be converted to radians and a plain number must be taken as radians (the documented format mixes `0.0` and `deg(-90.0)`): ' + '; '.join(bad_paths),
               found='converting paths=%d plain paths=%d other=%s' % (conv_paths, plain_paths, bad_paths), detail='deg(..) -> to_radians; plain -> as is')
@@ -708,6 +716,205 @@ def _len_calls_feeding(b, sw):
     return out
 
 
+def _parse_degrees_by_interpretation(prog, pd):
+    """The angle reader run on a symbolic string with the string operations scripted: strip_prefix("deg(") / strip_suffix(")")
+    match or do not, the number parses or does not.  `deg(<x>)` must read as to_radians(parse(<x>)), anything else as
+    parse(<the string>) unchanged, a failed parse as an error value.  Returns the list of disagreements, None when the
+    reader cannot be interpreted."""
+    from .. import absint
+    from ..absint import Interp, Sym, SOME, NONE, enum, _call_f, _deref_arg
+    OK_, ERR_ = (lambda v: enum(0, v)), (lambda v: enum(1, v))
+    problems = []
+
+    def untrim(x):
+        while isinstance(x, Sym) and isinstance(x.tag, tuple) and x.tag[0] == 'trim':
+            x = x.tag[1]
+        return x
+    S = Sym('s')
+    INNER = Sym(('strip_suffix', Sym(('strip_prefix', S, 'deg(')), ')'))
+    for prefix, suffix, parses in ((True, True, True), (False, False, True), (True, False, True), (True, True, False), (False, False, False)):
+        def val(I, st, a):
+            return _deref_arg(I, st, a)
+
+        def h_prefix(I, st, a, t, b):
+            return SOME(Sym(('strip_prefix', val(I, st, a[0]), val(I, st, a[1])))) if prefix and val(I, st, a[1]) == 'deg(' else NONE
+
+        def h_suffix(I, st, a, t, b):
+            return SOME(Sym(('strip_suffix', val(I, st, a[0]), val(I, st, a[1])))) if suffix and val(I, st, a[1]) == ')' else NONE
+
+        def h_trim(I, st, a, t, b):
+            return Sym(('trim', val(I, st, a[0])))
+
+        def h_parse(I, st, a, t, b):
+            return OK_(Sym(('parsed', val(I, st, a[0])))) if parses else ERR_(Sym('parse-error'))
+
+        def h_rad(I, st, a, t, b):
+            return Sym(('to_radians', val(I, st, a[0])))
+
+        def h_deg(I, st, a, t, b):
+            return Sym(('to_degrees', val(I, st, a[0])))
+
+        def h_and_then(I, st, a, t, b):
+            o = absint._opt(I, st, a[0])
+            return NONE if o[1] == 0 else _call_f(I, st, a[1], [o[2][0]])
+
+        def h_map_err(I, st, a, t, b):
+            v = val(I, st, a[0])
+            return v if v[1] == 0 else ERR_(_call_f(I, st, a[1], [v[2][0]]))
+
+        def h_map(I, st, a, t, b):
+            v = val(I, st, a[0])
+            return OK_(_call_f(I, st, a[1], [v[2][0]])) if v[1] == 0 else v
+
+        def h_sym(name):
+            return lambda I, st, a, t, b: Sym(name)
+        H = {'str::strip_prefix': h_prefix, 'str::strip_suffix': h_suffix, 'str::trim': h_trim, 'str::trim_start': h_trim, 'str::trim_end': h_trim,
+             'str::parse': h_parse, 'FromStr::from_str': h_parse, 'f64::to_radians': h_rad, 'f64::to_degrees': h_deg, 'Option::and_then': h_and_then,
+             'Result::map_err': h_map_err, 'Result::map': h_map, 'fmt::format': h_sym('message'), 'Arguments::new': h_sym('fmt-args'),
+             'Argument::new_display': h_sym('fmt-arg'), 'Argument::new_debug': h_sym('fmt-arg'), 'hint::must_use': (lambda I, st, a, t, b: a[0]),
+             'Into::into': h_sym('message'), 'From::from': h_sym('message'), 'ToString::to_string': h_sym('message'), 'String::from': h_sym('message')}
+        I = Interp(prog, H, fuel=20000, max_paths=8)
+        I.symbolic, I.oracle = True, (lambda o, x, y: None)
+        try:
+            outs = I.run(pd.path, [S])
+        except (absint.Unsupported, absint.Undecided, KeyError, TypeError, AttributeError, IndexError):
+            return None
+        if len(outs) != 1:
+            return None
+        r = outs[0].ret
+        what = 'deg(..) %s, number %s' % ('matched' if prefix and suffix else 'not matched', 'parses' if parses else 'does not parse')
+        if not (isinstance(r, tuple) and r and r[0] == 'enum' and len(r[2]) == 1):
+            return None
+        if not parses:
+            if r[1] != 1:
+                problems.append('%s: Ok(%r) instead of an error value' % (what, r[2][0]))
+            continue
+        v = r[2][0]
+        if r[1] != 0:
+            problems.append('%s: an error value' % what)
+        elif prefix and suffix:
+            ok = isinstance(v, Sym) and isinstance(v.tag, tuple) and v.tag[0] == 'to_radians' and isinstance(v.tag[1], Sym) and isinstance(v.tag[1].tag, tuple) and \
+                v.tag[1].tag[0] == 'parsed' and untrim(v.tag[1].tag[1]) == INNER
+            if not ok:
+                problems.append('%s: read as %r, expected to_radians(parse(<the text between `deg(` and `)`>))' % (what, v))
+        else:
+            ok = isinstance(v, Sym) and isinstance(v.tag, tuple) and v.tag[0] == 'parsed' and untrim(v.tag[1]) == S
+            if not ok:
+                problems.append('%s: read as %r, expected parse(<the string>) as it is' % (what, v))
+    return problems
+
+
+YAML_VARIANTS = ('Real', 'Integer', 'String', 'Boolean', 'Array', 'Hash', 'Alias', 'Null', 'BadValue')     # yaml-rust2, declaration order
+
+
+def _array_reader_by_interpretation(prog, b, name):
+    """An array reader run on a node holding 0 .. 8 integer entries and on a missing node.  Six entries must come back as they
+    are, five with one pad value appended, any other count as an error value, a missing node as an Ok default.
+    Returns (problems, pad value), None when the reader cannot be interpreted."""
+    from .. import absint
+    from ..absint import Interp, Sym, Iv, SOME, NONE, enum, _call_f, _deref_arg
+    OK_, ERR_ = (lambda v: enum(0, v)), (lambda v: enum(1, v))
+    V = {n: k for k, n in enumerate(YAML_VARIANTS)}
+    problems = []
+    padv = None
+
+    def num(x):
+        if isinstance(x, Iv) and x.is_point():
+            return float(x.lo)
+        if isinstance(x, (int, float)) and not isinstance(x, bool):
+            return float(x)
+        return x
+
+    def val(I, st, a):
+        a = _deref_arg(I, st, a)
+        while isinstance(a, tuple) and a and a[0] in ('ref', 'refval', 'mref'):
+            a = I.deref(a, st)
+        return a
+
+    def h_as_vec(I, st, a, t, b_):
+        v = val(I, st, a[0])
+        return SOME(('refval', v[2][0], ())) if isinstance(v, tuple) and v[:2] == ('enum', V['Array']) else NONE
+
+    def h_as_i64(I, st, a, t, b_):
+        v = val(I, st, a[0])
+        return SOME(v[2][0]) if isinstance(v, tuple) and v[:2] == ('enum', V['Integer']) else NONE
+
+    def h_as_f64(I, st, a, t, b_):
+        return NONE
+
+    def h_from_elem(I, st, a, t, b_):
+        n = a[1]
+        if not isinstance(n, int):
+            raise absint.Unsupported('vec![x; n] with n unknown')
+        return tuple(a[0] for _ in range(n))
+
+    def h_try_into(I, st, a, t, b_):
+        v = val(I, st, a[0])
+        if not isinstance(v, tuple) or (v and v[0] == 'enum'):
+            raise absint.Unsupported('try_into of %r' % (v,))
+        return OK_(v) if len(v) == 6 else ERR_(v)
+
+    def h_unwrap(I, st, a, t, b_):
+        v = val(I, st, a[0])
+        if v[1] != 0:
+            raise absint.Undecided('unwrap of an error value')
+        return v[2][0]
+
+    def h_copy_from_slice(I, st, a, t, b_):
+        src = val(I, st, a[1])
+        if isinstance(a[0], dict) and '#subslice' in a[0]:
+            base, lo, hi = a[0]['#subslice']
+            whole = I.deref(base, st)
+            if not isinstance(src, tuple) or len(src) != hi - lo:
+                raise absint.Undecided('copy_from_slice of different lengths')
+            I._write_ref(st, base, tuple(whole[:lo]) + tuple(src) + tuple(whole[hi:]))
+            return ()
+        dst = val(I, st, a[0])
+        if not isinstance(src, tuple) or not isinstance(dst, tuple) or len(src) != len(dst):
+            raise absint.Undecided('copy_from_slice of different lengths')
+        I._write_ref(st, a[0], tuple(src))
+        return ()
+
+    def h_sym(nm):
+        return lambda I, st, a, t, b_: Sym(nm)
+    H = {'Yaml::as_vec': h_as_vec, 'Yaml::as_i64': h_as_i64, 'Yaml::as_f64': h_as_f64, 'vec::from_elem': h_from_elem, 'TryInto::try_into': h_try_into,
+         'TryFrom::try_from': h_try_into, 'Result::unwrap': h_unwrap, 'Result::expect': h_unwrap, 'slice::copy_from_slice': h_copy_from_slice,
+         'Vec::as_slice': absint.BUILTINS['Deref::deref'], 'Into::into': h_sym('message'), 'From::from': h_sym('message'), 'ToString::to_string': h_sym('message'),
+         'String::from': h_sym('message'), 'str::to_string': h_sym('message'), 'ToOwned::to_owned': h_sym('message')}
+    default = {'read_offsets': 0.0, 'read_sign_corrections': 1.0}[name]
+    for n in (None, 0, 1, 4, 5, 6, 7, 8):
+        if n is None:
+            node = enum(V['BadValue'])
+        else:
+            node = enum(V['Array'], tuple(enum(V['Integer'], 10 + k) for k in range(n)))
+        I = Interp(prog, H, fuel=40000, max_paths=8)
+        try:
+            outs = I.run(b.path, [('refval', node, ())])
+        except (absint.Unsupported, absint.Undecided, KeyError, TypeError, AttributeError, IndexError):
+            return None
+        if len(outs) != 1:
+            return None
+        r = outs[0].ret
+        if not (isinstance(r, tuple) and r and r[0] == 'enum' and len(r[2]) == 1):
+            return None
+        what = 'a missing array' if n is None else 'an array of %d entries' % n
+        got = [num(x) for x in r[2][0]] if r[1] == 0 and isinstance(r[2][0], (tuple, list)) else None
+        if n is None:
+            if got != [default] * 6:
+                problems.append('%s reads as %s, expected the default %s six times' % (what, got if r[1] == 0 else 'an error value', default))
+        elif n == 6:
+            if got != [float(10 + k) for k in range(6)]:
+                problems.append('%s reads as %s, expected its entries as they are' % (what, got if r[1] == 0 else 'an error value'))
+        elif n == 5:
+            if not (got is not None and len(got) == 6 and got[:5] == [float(10 + k) for k in range(5)] and isinstance(got[5], float)):
+                problems.append('%s reads as %s, expected its entries and one pad value' % (what, got if r[1] == 0 else 'an error value'))
+            else:
+                padv = got[5]
+        elif r[1] != 1:
+            problems.append('%s reads as Ok(%s), expected an error value' % (what, got))
+    return problems, padv
+
+
 def _arrays(ctx, prog):
     pads = {}
 
@@ -801,6 +1008,17 @@ def _arrays(ctx, prog):
                 if pi is not None and pi - 1 < len(t['args']):
                     padv = strip(b.op_term(t['args'][pi - 1], (bi, None)))
         pads[name.replace('read_', '')] = util.const_val(padv) if padv is not None else None
+        if not (pad and err):
+            # neither shape read above (slice patterns, a zeroed array filled from the entries, ..): the reader interpreted on
+            # arrays of 0 .. 8 integer entries and on a missing node
+            by_run = _array_reader_by_interpretation(prog, b, name)
+            if by_run is not None and not by_run[0]:
+                pad = err = True
+                pads[name.replace('read_', '')] = by_run[1]
+            elif by_run is not None:
+                ctx.check(False, 'R19.3', name, b.where(0), b.path, 'a five-entry array must be padded to six and any other length must yield InvalidLength: ' + '; '.join(by_run[0][:3]),
+                          found=str(by_run[0][:3]))
+                continue
         ctx.check(pad and err, 'R19.3', name, where.where(0), where.path, 'a five-entry array must be padded to six and any other length must yield InvalidLength', found='pad=%s error=%s' % (pad, err))
     return pads
 
